@@ -357,6 +357,9 @@ class RTCIceTransport(AsyncIOEventEmitter):
         """
         if self.state != "closed":
             self.__setState("closed")
+            # no more remote candidates are going to be used: a start() which
+            # is still waiting for them must not wait for ever
+            await self.addRemoteCandidate(None)
             await self._connection.close()
             if self.__monitor_task is not None:
                 await self.__monitor_task
